@@ -52,7 +52,7 @@ class MetricEvaluator(CallbackBase):
     """
 
     def __init__(self, period, metrics, verbose=False, log=None, **metric_kwargs):
-        self.period = period
+        self.period = int(period)
         self.metrics = metrics
         self.metric_kwargs = metric_kwargs
         self.past_values = []
